@@ -445,6 +445,98 @@ pub fn run(ctx: &Ctx) -> Report {
             rep.violations += bad.len() as u64 - 2;
         }
     }
+    // runs of spaces of EVERY length inside a line, on wide screens: "text containing ... spaces"
+    // - an inner run of spaces may cover a whole row's tail (and whole rows) and is still text
+    {
+        let t0 = Instant::now();
+        let cases: Vec<(usize, usize)> = [40usize, 130, 258, 300, 520].iter().flat_map(|&w| (0..=2 * w + 3).map(move |n| (w, n))).collect();
+        let bad: Vec<(usize, usize, String)> = cases
+            .par_iter()
+            .filter_map(|&(w, n)| {
+                for head in ["k", "key:", ""] {
+                    let lines = vec!["first".to_string(), format!("{}{}value", head, " ".repeat(n)), "last".to_string()];
+                    if head.is_empty() {
+                        // leading spaces are text too
+                    }
+                    let err = match guarded(|| check_one(&lines, w, 3, false)) {
+                        Ok(Ok(_)) => None,
+                        Ok(Err(e)) => Some(e),
+                        Err(m) => Some(format!("panic: {}", m)),
+                    };
+                    if let Some(e) = err {
+                        let short: String = if e.len() > 300 { format!("{} ... ({} characters)", e.chars().take(120).collect::<String>(), e.len()) } else { e };
+                        return Some((w, n, format!("{:?} + {} spaces + \"value\" at width {}: {}", head, n, w, short)));
+                    }
+                }
+                None
+            })
+            .collect();
+        let runs = cases.len() as u64 * 3;
+        rep.transitions += runs;
+        rep.evaluations += runs;
+        rep.traces_validated += runs;
+        rep.distinct_nontrivial += runs;
+        rep.parts.push(json!({"part":"space-runs-of-every-length","widths":[40,130,258,300,520],"runs":runs,"violating":bad.len(),"wall_s":t0.elapsed().as_secs_f64()}));
+        println!("part space-runs-of-every-length: {} texts, {} violating ({:.1}s)", runs, bad.len(), t0.elapsed().as_secs_f64());
+        if let Some((w, n, e)) = bad.iter().min_by_key(|x| (x.0, x.1)) {
+            emit_violation(ctx, &mut rep, "C09", json!({"part":"space-runs-of-every-length","cols":w,"spaces":n,"oracle":"text-reproduced","observed":e}));
+            rep.violations += bad.len() as u64 - 1;
+        }
+    }
+    // two reads, a power of two apart: text() read, then N more units of output (a character,
+    // a line, a wrapped line, a bare LF - N around every power of two from 2^7 to 2^17), then
+    // read again - the second read is the text of everything fed, exactly what a terminal
+    // that was not read in between gives
+    {
+        let t0 = Instant::now();
+        let mut ns: Vec<usize> = vec![];
+        for k in 7..=ctx.tier.pick(17u32, 19) {
+            let b = 1usize << k;
+            ns.extend([b - 1, b, b + 1, b / 3, b / 3 + 1]);
+        }
+        ns.sort();
+        ns.dedup();
+        let units = ["a", "x\r\n", "abcde\r\n", "\n", "ab\r\n\r\n"];
+        let cases: Vec<(usize, usize, usize)> = ns.iter().flat_map(|&n| (0..units.len()).flat_map(move |u| [(n, u, 4usize), (n, u, 11)])).collect();
+        let bad: Vec<String> = cases
+            .par_iter()
+            .filter_map(|&(n, u, w)| {
+                let r = guarded(|| {
+                    let h = if w == 4 { 1 } else { 3 };
+                    let body = units[u].repeat(n);
+                    let mut a = build_vt(w, h, None);
+                    let mut b = build_vt(w, h, None);
+                    let _ = a.feed_str("one\r\n");
+                    let _ = b.feed_str("one\r\n");
+                    let first = a.text();
+                    let _ = (a.lines().len(), a.view().len());
+                    let _ = a.feed_str(&body);
+                    let _ = b.feed_str(&body);
+                    let (ta, tb) = (a.text(), b.text());
+                    if ta != tb {
+                        let at = ta.iter().zip(tb.iter()).position(|(x, y)| x != y).unwrap_or(ta.len().min(tb.len()));
+                        return Some(format!("{}x{}: text() read, then {} x {:?}, then read again: {} lines (first read had {}), a terminal not read in between has {} lines; first difference at line {}", w, h, n, units[u], ta.len(), first.len(), tb.len(), at));
+                    }
+                    None
+                });
+                match r {
+                    Ok(x) => x,
+                    Err(m) => Some(format!("{} x {:?}: panic: {}", n, units[u], m)),
+                }
+            })
+            .collect();
+        let runs = cases.len() as u64;
+        rep.transitions += runs;
+        rep.evaluations += runs;
+        rep.traces_validated += runs;
+        rep.distinct_nontrivial += runs;
+        rep.parts.push(json!({"part":"two-reads-a-power-of-two-apart","counts":ns.len(),"max_count":ns.last(),"units":units.len(),"runs":runs,"violating":bad.len(),"wall_s":t0.elapsed().as_secs_f64()}));
+        println!("part two-reads-a-power-of-two-apart: {} runs (counts up to {}), {} violating ({:.1}s)", runs, ns.last().unwrap(), bad.len(), t0.elapsed().as_secs_f64());
+        if let Some(e) = bad.first() {
+            emit_violation(ctx, &mut rep, "C09", json!({"part":"two-reads-a-power-of-two-apart","oracle":"text-reproduced","observed":e}));
+            rep.violations += bad.len() as u64 - 1;
+        }
+    }
     // every line count: "however much has scrolled into an unlimited scrollback"
     {
         let t0 = Instant::now();
@@ -542,9 +634,20 @@ pub fn run(ctx: &Ctx) -> Report {
 }
 
 pub fn replay(ctx: &Ctx, v: &Value) -> bool {
-    if v["part"] == "long-call-of-multibyte-characters" || v["part"] == "read-while-it-grows" {
+    if v["part"] == "long-call-of-multibyte-characters" || v["part"] == "read-while-it-grows" || v["part"] == "two-reads-a-power-of-two-apart" {
         let c2 = Ctx { id: ctx.id.clone(), tier: Tier::Quick, seed: 0, start: ctx.start, known: ctx.known.clone(), replay_dir: format!("{}/again", ctx.replay_dir) };
         return run(&c2).violations > 0;
+    }
+    if v["part"] == "space-runs-of-every-length" {
+        let n = v["spaces"].as_u64().unwrap_or(0) as usize;
+        let w = v["cols"].as_u64().unwrap_or(80) as usize;
+        let mut any = false;
+        for head in ["k", "key:", ""] {
+            let r = check_one(&["first".to_string(), format!("{}{}value", head, " ".repeat(n)), "last".to_string()], w, 3, false);
+            println!("{:?}", r.as_ref().map(|_| "ok").map_err(|e| e.chars().take(200).collect::<String>()));
+            any |= r.is_err();
+        }
+        return any;
     }
     if v["part"] == "one-very-long-line" {
         let n = v["length"].as_u64().unwrap_or(0) as usize;
